@@ -592,9 +592,12 @@ bool exec_str_a(Ctx &c, const Op &op) {
         if (op.fault & F_CORRUPT) {
             bad = true;
             uint32_t k = op.fc & 0xFF, ps = op.fc >> 8;
-            if (text.empty() || k % 3 == 0) text += (k & 4) ? "=" : "A";                    // wrong length
-            else if (k % 3 == 1) text[ps % text.size()] = (k & 4) ? '!' : '=';              // bad character / misplaced padding
-            else text[ps % text.size()] = (char)0xE9;                                       // (not even valid UTF-8 when validated)
+            if (text.empty() || k % 5 == 0) text += (k & 4) ? "=" : "A";                    // wrong length
+            else if (k % 5 == 1) text[ps % text.size()] = (k & 4) ? '!' : '=';              // bad character / misplaced padding
+            else if (k % 5 == 2) text[ps % text.size()] = (char)0xE9;                       // (not even valid UTF-8 when validated)
+            else if (k % 5 == 3) text.insert(ps % (text.size() + 1), 1, " \t\r\n"[(k >> 3) & 3]);      // one white-space character somewhere (also leading / trailing)
+            else { std::string w; const size_t col = (k & 8) ? 64 : 16;                      // line-wrapped, as MIME / PEM text arrives
+                   for (size_t i = 0; i < text.size(); i++) { w += text[i]; if ((i + 1) % col == 0) w += (k & 16) ? "\n" : "\r\n"; } w += "\n"; text.swap(w); }
         }
         note_sig(c, op, std::string(b64 ? "base64" : "hex") + ",dst=" + cls_letter(dst->model.size(), 16) + (bad ? ",corrupted" : ""));
         c.budget_bytes = text.size() * 2 + dst->model.size();
